@@ -103,7 +103,13 @@ fn cmd_hist(a: &Args) -> Ev {
         match prop.as_str() {
             "C13" | "C14" => g.bias_mut = true,
             "C11" | "C12" => g.bias_view = true,
-            "C10" | "C16" => g.bias_bulk = true,
+            "C10" => g.bias_bulk = true,
+            "C16" => {
+                g.bias_bulk = true;
+                // a panicking callback must not lose or duplicate slots either
+                g.allow_inject = hi % 2 == 1;
+            }
+            "C04" => g.allow_inject = hi % 2 == 1,
             "C18" => g.bias_entry = true,
             "C15" => {
                 // panicking user callbacks must not leave structural leftovers either
